@@ -15,7 +15,8 @@
      OrderLeaks consume           refutation: two enumerations of the same content give different results
 
    Also here: the model of validate_unused_variables (validation/variable.rs) and of
-   ImplementsGraph::topo_order_parents_first (apollo-smith/src/implements_graph.rs).
+   ImplementsGraph::topo_order_parents_first (apollo-smith/src/implements_graph.rs; repaired: it no longer
+   enumerates its HashMap, the code before the repair is kept as smith_topo_order_old).
    Definitions and proofs (nothing in this file is extracted). *)
 From Coq Require Import Sorting.Sorted Sorting.Permutation.
 From ApolloVerif Require Import Base.Chars Ast.Ast Valid.Guards Valid.SortProofs.
@@ -171,34 +172,85 @@ Qed.
 
 (* ------------------------------------------------------------------ ImplementsGraph::topo_order_parents_first
 
+   struct ImplementsGraph { graph: DiGraph<Name, ()>, by_name: HashMap<Name, NodeIndex> }
+
    match toposort(&Reversed(&self.graph), None) {
        Ok(order) => order.into_iter().map(|idx| self.graph[idx].clone()).collect(),
-       Err(_) => self.by_name.keys().cloned().collect(),      // the site
+       Err(_) => self.graph.node_weights().cloned().collect(),
    }
    petgraph's toposort is a function of the graph (nodes and edges in insertion order): Some order, or None
-   when there is a cycle.  The fallback returns the names in the enumeration order of the HashMap. *)
+   when there is a cycle.  `node_weights` walks the node vector of the graph in index order (nodes are only ever
+   appended by node_for, so this is the insertion order the doc comment promises): a function of the graph too.
+   The HashMap `by_name` is still a field (look-ups only); its enumeration stays a parameter of the model so that
+   the theorem says what the property asks: the result does not depend on it.
+
+   Before the repair (finding smith_implements_cycle_order) the fallback was
+       Err(_) => self.by_name.keys().cloned().collect(),      // the former site
+   i.e. the names in the enumeration order of the HashMap: smith_topo_order_old, kept with its refutation. *)
 
 Section Topo.
   Variable G : Type.
   Variable toposort : G -> option (list str).
+  Variable node_weights : G -> list str.
 
   Definition smith_topo_order (g : G) (keys_enum : list str) : list str :=
+    match toposort g with
+    | Some order => order
+    | None => node_weights g
+    end.
+
+  (* whatever the graph (cyclic or not), the order is a function of the graph alone *)
+  Lemma smith_topo_order_graph_only g keys_enum keys_enum' :
+    smith_topo_order g keys_enum = smith_topo_order g keys_enum'.
+  Proof. reflexivity. Qed.
+
+  Lemma smith_topo_order_irrelevant g : OrderIrrelevant (smith_topo_order g).
+  Proof. intros content e1 e2 _ _ _. apply smith_topo_order_graph_only. Qed.
+
+  (* on a cycle the result is the insertion order of the nodes *)
+  Lemma smith_topo_cyclic_insertion_order g keys_enum : toposort g = None ->
+    smith_topo_order g keys_enum = node_weights g.
+  Proof. intros H. unfold smith_topo_order. now rewrite H. Qed.
+
+  (* ---- the code before the repair *)
+  Definition smith_topo_order_old (g : G) (keys_enum : list str) : list str :=
     match toposort g with
     | Some order => order
     | None => keys_enum
     end.
 
-  Lemma smith_topo_acyclic g (ord : list str) : toposort g = Some ord ->
-    OrderIrrelevant (smith_topo_order g).
-  Proof. intros H content e1 e2 _ _ _. unfold smith_topo_order. now rewrite H. Qed.
+  Lemma smith_topo_old_acyclic g (ord : list str) : toposort g = Some ord ->
+    OrderIrrelevant (smith_topo_order_old g).
+  Proof. intros H content e1 e2 _ _ _. unfold smith_topo_order_old. now rewrite H. Qed.
 
-  Lemma smith_topo_cyclic_leaks g (a b : str) : toposort g = None -> a <> b ->
-    OrderLeaks (smith_topo_order g).
+  Lemma smith_topo_old_cyclic_leaks g (a b : str) : toposort g = None -> a <> b ->
+    OrderLeaks (smith_topo_order_old g).
   Proof.
     intros H Hab. exists [a; b], [a; b], [b; a]. repeat split.
     - constructor; [intros [E|[]]; congruence|constructor; [intros []|constructor]].
     - apply Permutation_refl.
     - apply perm_swap.
-    - unfold smith_topo_order. rewrite H. intros E. injection E as E _. congruence.
+    - unfold smith_topo_order_old. rewrite H. intros E. injection E as E _. congruence.
   Qed.
+
+  (* the two agree exactly when there is no cycle, or when the HashMap happens to enumerate in insertion order *)
+  Lemma smith_topo_old_new_agree_acyclic g ord keys_enum : toposort g = Some ord ->
+    smith_topo_order_old g keys_enum = smith_topo_order g keys_enum.
+  Proof. intros H. unfold smith_topo_order_old, smith_topo_order. now rewrite H. Qed.
 End Topo.
+
+Lemma smith_topo_order_both (G : Type) (toposort : G -> option (list str)) (node_weights : G -> list str) (g : G) :
+  OrderIrrelevant (smith_topo_order G toposort node_weights g) /\
+  (toposort g = None -> forall keys_enum, smith_topo_order G toposort node_weights g keys_enum = node_weights g).
+Proof.
+  split; [apply smith_topo_order_irrelevant|]. intros H keys_enum. now apply smith_topo_cyclic_insertion_order.
+Qed.
+
+Lemma smith_topo_old_both (G : Type) (toposort : G -> option (list str)) (g : G) :
+  (forall ord, toposort g = Some ord -> OrderIrrelevant (smith_topo_order_old G toposort g)) /\
+  (toposort g = None -> OrderLeaks (smith_topo_order_old G toposort g)).
+Proof.
+  split.
+  - intros ord H. eapply smith_topo_old_acyclic; eauto.
+  - intros H. apply (smith_topo_old_cyclic_leaks G toposort g [97] [98] H). discriminate.
+Qed.
